@@ -1,0 +1,74 @@
+//go:build verif
+
+package kernel
+
+// Verification hook for C10 (also used by C09): which (key vector, threshold) pairs the real
+// verifyFinalization hands to the certificate verifier for a snapshot of the given round, timestamp
+// and hash. Nothing of verifyFinalization is repeated here: the real function runs on a probe
+// snapshot whose signature cannot verify, with the node's cache replaced for the duration of the
+// call by one whose key hashing records the raw cache keys; cacheVerifyCosi builds those keys as
+// hash ‖ signature ‖ public keys ‖ threshold ‖ mask, so every attempt shows its key vector and threshold.
+
+import (
+	"encoding/binary"
+
+	"github.com/MixinNetwork/mixin/common"
+	"github.com/MixinNetwork/mixin/crypto"
+	"github.com/dgraph-io/ristretto/v2"
+	"github.com/dgraph-io/ristretto/v2/z"
+)
+
+type VerifC10Pair struct {
+	Publics   []crypto.Key
+	Threshold uint64
+}
+
+func (chain *Chain) VerifC10FinalizationPairs(round, timestamp uint64, hash crypto.Hash) []VerifC10Pair {
+	var raw [][]byte
+	cache, err := ristretto.NewCache(&ristretto.Config[[]byte, any]{
+		NumCounters: 1e3,
+		MaxCost:     1 << 20,
+		BufferItems: 64,
+		KeyToHash: func(key []byte) (uint64, uint64) {
+			raw = append(raw, append([]byte(nil), key...))
+			return z.KeyToHash(key)
+		},
+	})
+	if err != nil {
+		panic(err)
+	}
+	defer cache.Close()
+
+	node := chain.node
+	old := node.cacheStore
+	node.cacheStore = cache
+	defer func() { node.cacheStore = old }()
+
+	probe := &common.Snapshot{
+		Version:     common.SnapshotVersionCommonEncoding,
+		RoundNumber: round,
+		Timestamp:   timestamp,
+		Hash:        hash,
+		Signature:   &crypto.CosiSignature{Mask: 1},
+	}
+	chain.verifyFinalization(probe)
+
+	var pairs []VerifC10Pair
+	seen := make(map[string]bool)
+	const fixed = 32 + 64 + 8 + 8
+	for _, key := range raw {
+		if len(key) < fixed || (len(key)-fixed)%32 != 0 || seen[string(key)] {
+			continue
+		}
+		seen[string(key)] = true
+		n := (len(key) - fixed) / 32
+		p := VerifC10Pair{Threshold: binary.BigEndian.Uint64(key[len(key)-16 : len(key)-8])}
+		for i := 0; i < n; i++ {
+			var k crypto.Key
+			copy(k[:], key[96+32*i:])
+			p.Publics = append(p.Publics, k)
+		}
+		pairs = append(pairs, p)
+	}
+	return pairs
+}
